@@ -270,6 +270,12 @@ def run_interpolated(sx, n, equalize=True):
     m = (a + b) / 2
     sx.prove_close(curve.get_length(a, m) + curve.get_length(m, b), L, "length is additive over a split", tol=1e-7,
                    key=f"C16:interpolated:additive:{'equalized' if equalize else 'uniform'}")
+    # the parameters in the other order: the same piece of curve
+    sx.prove_close(curve.get_length(b, a), L, "length(b,a) == length(a,b)", tol=1e-7,
+                   key=f"C16:interpolated:length:reversed:{'equalized' if equalize else 'uniform'}")
+    dr = curve.discretize(b, a, 5)
+    sx.prove(sx.all([_close3(sx, dr[0], pb, 1e-8), _close3(sx, dr[-1], pa, 1e-8)]),
+             "discretize(b,a) starts at point(b) and ends at point(a)", "C16:interpolated:ends:reversed")
     return "interpolated"
 
 
